@@ -29,6 +29,9 @@ enum St {
     SyntaxError,
     /// plain binding
     Let,
+    /// an assert in the body of a module that is instantiated by a function applied through map
+    DeepTrue,
+    DeepFalse,
 }
 
 #[derive(Clone, Debug)]
@@ -54,6 +57,12 @@ impl TestFile {
                 St::BuildError => s.push_str(&format!("let boom{} = 1 / (1 - 1);\n", j)),
                 St::SyntaxError => s.push_str(&format!("let broken{} = = 1;\n", j)),
                 St::Let => s.push_str(&format!("let x{} = {};\n", j, j)),
+                St::DeepTrue | St::DeepFalse => s.push_str(&format!(
+                    "let chk{j} = module {{v = 1}} => {{ assert {{ok = mod.v == 1, desc = \"{d}\"}}; }};\nlet run{j} = map(func (x) => chk{j}{{v = x}}, [{v}]);\n",
+                    j = j,
+                    d = d,
+                    v = if *st == St::DeepTrue { 1 } else { 2 }
+                )),
             }
         }
         s
@@ -61,7 +70,7 @@ impl TestFile {
 
     /// does the model say PASS?
     fn passes(&self) -> bool {
-        self.stmts.iter().all(|s| matches!(s, St::True | St::Let))
+        self.stmts.iter().all(|s| matches!(s, St::True | St::Let | St::DeepTrue))
     }
 
     fn builds(&self) -> bool {
@@ -76,8 +85,8 @@ impl TestFile {
         }
         for (j, st) in self.stmts.iter().enumerate() {
             match st {
-                St::True => out.push((format!("f{}a{}", fi, j), true)),
-                St::False => out.push((format!("f{}a{}", fi, j), false)),
+                St::True | St::DeepTrue => out.push((format!("f{}a{}", fi, j), true)),
+                St::False | St::DeepFalse => out.push((format!("f{}a{}", fi, j), false)),
                 St::BuildError => break,
                 _ => {}
             }
@@ -193,12 +202,19 @@ impl C13 {
         // every order (up to 4 files = 24)
         let perms = permutations(files.len());
         let mut fail_then_pass = false;
-        'outer: for perm in perms.iter() {
+        // every order in strict mode, and the first order once more with --no-strict (nothing in
+        // these files depends on strictness)
+        let mut runs: Vec<(&Vec<usize>, bool)> = perms.iter().map(|p| (p, false)).collect();
+        runs.push((&perms[0], true));
+        'outer: for (perm, no_strict) in runs.into_iter() {
             let order: Vec<&TestFile> = perm.iter().map(|i| &files[*i]).collect();
             if order.windows(2).any(|w| !w[0].passes() && w[1].passes()) || (0..order.len()).any(|a| (a + 1..order.len()).any(|b| !order[a].passes() && order[b].passes())) {
                 fail_then_pass = true;
             }
-            let args: Vec<String> = std::iter::once("test".to_string()).chain(perm.iter().map(|i| names[*i].clone())).collect();
+            let mut args: Vec<String> = std::iter::once("test".to_string()).chain(perm.iter().map(|i| names[*i].clone())).collect();
+            if no_strict {
+                args.insert(0, "--no-strict".to_string());
+            }
             let r = self.run(&dir, args.clone());
             if r.timed_out {
                 let _ = std::fs::remove_dir_all(&dir);
@@ -321,6 +337,8 @@ fn st_from_str(s: &str) -> St {
         "HiddenNotTuple" => St::HiddenNotTuple,
         "BuildError" => St::BuildError,
         "SyntaxError" => St::SyntaxError,
+        "DeepTrue" => St::DeepTrue,
+        "DeepFalse" => St::DeepFalse,
         _ => St::Let,
     }
 }
@@ -360,9 +378,11 @@ impl Property for C13 {
             for _ in 0..n {
                 let st = match flavour {
                     0 => {
-                        if t.chance(1, 5) { St::Let } else { St::True }
+                        if t.chance(1, 5) { St::Let } else if t.chance(1, 5) { St::DeepTrue } else { St::True }
                     }
-                    1 => match t.weighted(&[6, 3, 1, 1, 1, 1, 1, 1, 1, 2]) {
+                    1 => match t.weighted(&[6, 3, 1, 1, 1, 1, 1, 1, 1, 2, 2, 2]) {
+                        10 => St::DeepTrue,
+                        11 => St::DeepFalse,
                         0 => St::True,
                         1 => St::False,
                         2 => St::OkNotBool,
